@@ -169,6 +169,9 @@ func vqFmt(v interface{}) string {
 		if x == math.Trunc(x) && math.Abs(x) < 1e15 {
 			return fmt.Sprintf("%d", int64(x))
 		}
+		if math.Abs(x) < 1e-9 {
+			return "0" // rounding noise around a mean that is exactly zero (absolute tolerance of the oracle)
+		}
 		// 12 significant digits: a mean over several shards is combined from partial means and may differ
 		// from the single-shard mean in the last units of precision (stated tolerance of the oracle)
 		return strconv.FormatFloat(x, 'g', 12, 64)
@@ -520,7 +523,7 @@ func vqModelPoints(m string, pts []vqPoint) []models.Point {
 
 func TestVerifC11QueryLayouts(t *testing.T) {
 	stats := verifkit.For("C11", "TestVerifC11QueryLayouts",
-		"bed K: a generated data set (<=3 hosts x 2 regions, float k/4 / integer / string / boolean fields, irregular second timestamps over <=10 days, later overwrites; when timestamps are not unique, points of other series are placed at the timestamp of the earliest, the latest and a few other points with different values) is written into 4 retention policies that differ only in physical layout (RF 3 one shard in cache; RF 1 weekly shards snapshotted; RF 1 hourly shards partly snapshotted + full compaction scheduled; RF 2 daily shards with overwrites after a snapshot); a statement from the grammar SELECT field|count|sum|mean|min|max|first|last|spread|median ... WHERE time range [AND host=] GROUP BY [time(d[,off])][,tags|*] fill(none|null|n|previous|linear) ORDER BY time DESC LIMIT OFFSET is run on all 4 layouts x 3 nodes: all 12 results must be identical (rows with equal timestamps compared as multisets) and equal to a reference evaluator written from the InfluxQL documentation. non-trivial = the statement's range spans >=2 shards in some layout and it has an aggregate or LIMIT/OFFSET; distinct = hash of the statement shape; floats are compared at 12 significant digits; fill(previous) with ORDER BY time DESC is compared across layouts only (the engine fills from the later window, which the documentation does not pin down)")
+		"bed K: a generated data set (<=3 hosts x 2 regions, float k/4 / integer / string / boolean fields, irregular second timestamps over <=10 days, later overwrites; when timestamps are not unique, points of other series are placed at the timestamp of the earliest, the latest and a few other points with different values) is written into 4 retention policies that differ only in physical layout (RF 3 one shard in cache; RF 1 weekly shards snapshotted; RF 1 hourly shards partly snapshotted + full compaction scheduled; RF 2 daily shards with overwrites after a snapshot); a statement from the grammar SELECT field|count|sum|mean|min|max|first|last|spread|median ... WHERE time range [AND host=] GROUP BY [time(d[,off])][,tags|*] fill(none|null|n|previous|linear) ORDER BY time DESC LIMIT OFFSET is run on all 4 layouts x 3 nodes: all 12 results must be identical (rows with equal timestamps compared as multisets) and equal to a reference evaluator written from the InfluxQL documentation. non-trivial = the statement's range spans >=2 shards in some layout and it has an aggregate or LIMIT/OFFSET; distinct = hash of the statement shape; floats are compared at 12 significant digits (absolute values below 1e-9 count as 0); fill(previous) with ORDER BY time DESC is compared across layouts only (the engine fills from the later window, which the documentation does not pin down)")
 	defer stats.Flush()
 	cl, err := vkSharedCluster()
 	if err != nil {
